@@ -47,7 +47,7 @@ Fixpoint nodes (p : prop) : list prop :=
    value instead of the computed one; non-constant bounds given for a node do not fix it. *)
 Fixpoint eval_d (d : interp) (env : ident -> Z) (p : prop) : Z :=
   match p with
-  | Var i _ _ => env i
+  | Var i lo hi => let b := dbounds d i lo hi in if fst b =? snd b then fst b else env i
   | Node _ i _ lo hi s v ch =>
       let b := dbounds d i lo hi in
       if fst b =? snd b then fst b
@@ -57,7 +57,7 @@ Fixpoint eval_d (d : interp) (env : ident -> Z) (p : prop) : Z :=
 (* the leaf environment respects the interval the interpretation (or the declaration) gives *)
 Fixpoint refines (d : interp) (env : ident -> Z) (p : prop) : Prop :=
   match p with
-  | Var i lo hi => fst (dbounds d i lo hi) <= env i <= snd (dbounds d i lo hi)
+  | Var i lo hi => let b := dbounds d i lo hi in fst b = snd b \/ fst b <= env i <= snd b
   | Node _ _ _ _ _ _ _ ch => (fix go l := match l with [] => True | x :: xs => refines d env x /\ go xs end) ch
   end.
 
@@ -79,4 +79,48 @@ Fixpoint inb_c (env : ident -> Z) (p : prop) : Prop :=
   match p with
   | Var i lo hi => lo <= hi /\ (lo < hi -> lo <= env i <= hi)
   | Node _ _ _ _ _ _ _ ch => (fix go l := match l with [] => True | x :: xs => inb_c env x /\ go xs end) ch
+  end.
+
+(* every id occurring in the model has a single definition (C10's conclusion), up to the
+   class-level metadata that no query except serialisation looks at *)
+Definition single_def (m : prop) : Prop :=
+  forall a b, In a (nodes m) -> In b (nodes m) -> id_of a = id_of b -> core_eqb a b = true.
+
+(* no interpretation entry and no declared bound fixes a compound: eval_d is then plain eval *)
+Fixpoint no_fixed (d : interp) (p : prop) : Prop :=
+  match p with
+  | Var i lo hi => True
+  | Node _ i _ lo hi _ _ ch => fst (dbounds d i lo hi) <> snd (dbounds d i lo hi) /\
+      (fix go l := match l with [] => True | x :: xs => no_fixed d x /\ go xs end) ch
+  end.
+
+(* compound ids are not named by the dictionary *)
+Fixpoint comps_unnamed (d : interp) (p : prop) : Prop :=
+  match p with
+  | Var _ _ _ => True
+  | Node _ i _ _ _ _ _ ch => alookup i d = None /\
+      (fix go l := match l with [] => True | x :: xs => comps_unnamed d x /\ go xs end) ch
+  end.
+
+(* C07: d1 is the assumption, d2 the further interpretation, env the leaf environment.
+   d2 names no compound and no id already named by d1; for every leaf the final interval
+   (declared, narrowed by d1, then by d2) lies inside the interval after d1 and contains env. *)
+Fixpoint compat (d1 d2 : interp) (env : ident -> Z) (p : prop) : Prop :=
+  match p with
+  | Var i lo hi =>
+      (alookup i d1 <> None -> alookup i d2 = None) /\
+      let b1 := dbounds d1 i lo hi in
+      let b := dbounds d2 i (fst b1) (snd b1) in
+      fst b1 <= fst b /\ snd b <= snd b1 /\ fst b <= env i <= snd b
+  | Node _ i _ _ _ _ _ ch => alookup i d2 = None /\
+      (fix go l := match l with [] => True | x :: xs => compat d1 d2 env x /\ go xs end) ch
+  end.
+
+(* the interpretation is exactly the point environment on the leaves and fixes no compound:
+   then eval_d is the plain arithmetic truth function eval *)
+Fixpoint agrees (d : interp) (env : ident -> Z) (p : prop) : Prop :=
+  match p with
+  | Var i lo hi => dbounds d i lo hi = (env i, env i)
+  | Node _ i _ lo hi _ _ ch => fst (dbounds d i lo hi) <> snd (dbounds d i lo hi) /\
+      (fix go l := match l with [] => True | x :: xs => agrees d env x /\ go xs end) ch
   end.
